@@ -109,6 +109,12 @@ def gen_request_head(rng):
     return method, '-', '-', hx(p), fields
 
 
+def gen_split(rng):
+    """where one side splits its request stream: never / before any call / after its send side finished / after the
+    head was received / after k recv_data calls returned data / after recv_data said end, before recv_trailers"""
+    return rng.choice(['n', 'n', 'b', 'f', 'h', 'm1', 'm%d' % rng.randint(2, 6), 'e', 'e'])
+
+
 def gen_case(rng, tier, heavy):
     cap = 65536
     wire = rng.choice(['1', 'f2', 'f3', 'f7', 'r4', 'r16', 'r64', 'r1500', 'r20000', 'big', 'big'])
@@ -123,7 +129,8 @@ def gen_case(rng, tier, heavy):
     resp = '%d,%s,%s,%s' % (rng.choice(STATUSES + [rng.randint(100, 999)]), show_fields(gen_fields(rng, 10)),
                             gen_body(rng, cap), gen_trailers(rng))
     sched = rng.choice('uwx') + str(rng.randint(0, 10 ** 6))
-    line = 'e2e msg=%s resp=%s wire=%s budget=%s sched=%s split=%d' % (msg, resp, wire, budget, sched, rng.randint(0, 1))
+    line = 'e2e msg=%s resp=%s wire=%s budget=%s sched=%s split=%s,%s' % (msg, resp, wire, budget, sched,
+                                                                          gen_split(rng), gen_split(rng))
     if rng.random() < 0.12:
         line += ' grease=1'
     return line
@@ -132,7 +139,7 @@ def gen_case(rng, tier, heavy):
 class P(Property):
     id = 'C01'
     gen_modules = ['gen_varint', 'gen_codes', 'gen_headers', 'gen_datagram', 'gen_writers', 'gen_frames', 'gen_reqstream',
-                   'gen_static', 'gen_qstateless', 'gen_prefixint', 'gen_huffman', 'gen_huffman_enc']
+                   'gen_static', 'gen_qstateless', 'gen_prefixint', 'gen_huffman', 'gen_huffman_enc', 'gen_split']
     properties_v = 'Properties/C01.v'
     model_targets = ['Model/EndToEndH3.vo', 'Model/EndToEndRef.vo', 'Spec/EndToEndSpec.vo']
     extract_v = 'Extract/ExtractC01.v'
@@ -144,15 +151,18 @@ class P(Property):
             '0..64 KiB in 0..40 send pieces incl. empty ones, with/without/empty trailers, both directions) x wire deliveries '
             'of 1 byte / fixed / random / everything x write budgets of 1..8 bytes / random / unlimited x seeded schedules '
             '(uniform, weighted, strict-priority over client tasks, server tasks, deliveries per direction and stream, '
-            'grants) x whole / split request streams x grease on/off. non-trivial = distinct cases whose exchange completed '
+            'grants) x request streams whole or split into halves driven by separate tasks, the split point chosen per side '
+            '(before any call, after the send side finished, after the head, after k recv_data calls, after end-of-body '
+            'before recv_trailers) x grease on/off. non-trivial = distinct cases whose exchange completed '
             'and carried at least one field, body byte or trailer in some direction')
     partial_note = ('C01_request_fidelity / C01_response_fidelity are closed and every layer of their pipeline is the model of h3 code '
                     'owned by another property (C12 header mapping, C11 stateless QPACK, C14 writers, C02+C03 FrameStream and '
                     'RequestStream); their premises are the http-crate facts request_head_ok / response_head_ok / trailers_ok '
                     '(every value an application can hold prints to a string the crate parser accepts; at most 24576 field lines; '
                     'field section below 2^26 bytes) and that the receiving calls have completed (completion itself is C06). '
-                    'Not covered by the theorems, covered by the linked-pair run only: split streams (the split moves the same '
-                    'decoder state to the receive half), the interleaving of the connection drivers and of other streams')
+                    'Split streams: C01_split_point_irrelevant (the receive half starts from the whole stream state, fields '
+                    'read from the source by gen_split) plus the linked-pair run with seeded split points on both sides. Covered '
+                    'by the linked-pair run only: the interleaving of the connection drivers and of other streams')
     trusted_extra = [
         'http crate behaviour (Uri/Method/HeaderName/HeaderValue parse and print) enters as the premises request_ok / response_ok / '
         'map_ok of the header-mapping round trip; the linked-pair run exercises the real crate',
@@ -194,7 +204,7 @@ class P(Property):
     def family(self, case):
         w = case.split()
         try:
-            return 'e2e.%s.%s' % ('split' if 'split=1' in w else 'whole',
+            return 'e2e.%s.%s' % ('whole' if w[6] in ('split=0', 'split=n,n') else 'split',
                                   'paced' if (w[3] != 'wire=big' or w[4] != 'budget=u') else 'free')
         except IndexError:
             return 'e2e'
@@ -211,7 +221,11 @@ class P(Property):
 
         if len(w) > 7:
             out.append(' '.join(w[:7]))
-        put(6, 'split=0')
+        put(6, 'split=n,n')
+        if ',' in w[6]:
+            c, sv = w[6][len('split='):].split(',', 1)
+            put(6, 'split=n,%s' % sv)
+            put(6, 'split=%s,n' % c)
         put(3, 'wire=big')
         put(4, 'budget=u')
         put(5, 'sched=u1')
